@@ -130,7 +130,16 @@ def run_case(case: Case):
             failures.append({"obligation": o.name, "inputs": inputs, "replay": replay, "info": o.info,
                              "model": str(o.model)[:2000] if o.model is not None else None})
         obls.append(d)
+    standin = None
+    if (err or any(o.status == "undecided" for o in ex.obligations)) and hasattr(case, "standin"):
+        # the deductive route left something open on this tree (a construct outside the engine's reach, a solver
+        # timeout): a bounded native check of the same contract stands in. It can refute, never prove.
+        try:
+            standin = case.standin()
+        except Exception:  # noqa: BLE001
+            standin = {"name": f"standin:{case.name}", "bound": "crashed", "evaluations": 0, "failures": [], "error": traceback.format_exc(limit=4)}
     return {
+        "standin": standin,
         "case": case.name,
         "functions": list(case.functions),
         "obligations": obls,
